@@ -22,6 +22,7 @@ def flag (s : String) : Option Bool := if s == "1" then some true else if s == "
 def parseAcc (ws : List String) : Option (Acc × List String) :=
   match ws with
   | "all" :: rest => some ((fun _ _ => true), rest)
+  | "hastaxon" :: rest => some (hasTaxon, rest)
   | m :: rest =>
     match takeNats rest with
     | none => none
@@ -110,6 +111,31 @@ def handle (ws : List String) : String :=
         | _ => "bad-op"
       | none => "bad-op"
     | _, _, _ => "bad-op"
+  -- strikespec <fl> <fi> <k> <P…> <tree>: the independent description of the first pass of prune_taxa
+  | "strikespec" :: fl :: fi :: rest =>
+    match flag fl, flag fi, takeNats rest with
+    | some fl, some fi, some (P, rest) =>
+      match checkedTree rest with
+      | some (t, []) => match strikeSpec (fun k => P.contains k) fl fi t with
+        | some (some r) => r.render
+        | some none => "none"
+        | none => "no-spec"
+      | _ => "bad-op"
+    | _, _, _ => "bad-op"
+  -- bylabelupd <prune|retain> <R|U|N> <sup> <case-sensitive> <namespace> <k> <labels…> <tree>: by label, then re-encoding
+  | "bylabelupd" :: v :: r :: sup :: cs :: rest =>
+    match parseRooted r, flag sup, flag cs, takeNs rest with
+    | some r, some sup, some cs, some (ns, rest) =>
+      match takeStrs rest with
+      | some (labels, rest) =>
+        match checkedTree rest with
+        | some (t, []) =>
+          if v == "prune" then (match pruneWithLabelsUpd r cs ns labels sup t with | some x => renderUpd x | none => "err")
+          else if v == "retain" then (match retainWithLabelsUpd r cs ns labels sup t with | some x => renderUpd x | none => "err")
+          else "bad-op"
+        | _ => "bad-op"
+      | none => "bad-op"
+    | _, _, _, _ => "bad-op"
   -- upd <R|U|N> <sup> prune <k> <P…> <tree> | retain <m> <ns…> <k> <K…> <tree> | filter <acc> <tree> | subtree <id> <tree>
   | "upd" :: r :: sup :: "prune" :: rest =>
     match parseRooted r, flag sup, takeNats rest with
